@@ -25,6 +25,14 @@ def _numc(v):
     return ("c", v)
 
 CONJ_FUNCS = {"numpy.conj", "numpy.conjugate"}
+# (number of leading positional arguments kept, names of the following ones)
+LIB_SIGNATURES = {
+    "numpy.linalg.norm": (1, ["ord", "axis", "keepdims"]),
+    "scipy.linalg.norm": (1, ["ord", "axis", "keepdims"]),
+    "numpy.allclose": (2, ["rtol", "atol", "equal_nan"]),
+    "numpy.isclose": (2, ["rtol", "atol", "equal_nan"]),
+    "numpy.linalg.matrix_rank": (1, ["tol", "hermitian"]),
+}
 T_FUNCS = {"numpy.transpose"}
 MATMUL_FUNCS = {"numpy.matmul", "numpy.dot"}
 
@@ -279,6 +287,14 @@ class Normalizer:
                 return ("imag", self.n(node.args[0]))
             args = tuple(self.n(a) for a in node.args)
             kws = tuple(sorted(((k.arg or "**"), self.n(k.value)) for k in node.keywords))
+            sig = LIB_SIGNATURES.get(lib)
+            if sig and len(args) > sig[0] and not any(isinstance(a, ast.Starred) for a in node.args):
+                # merge positional and keyword spellings: positional arguments beyond the first sig[0] become keywords
+                extra = args[sig[0]:]
+                names = sig[1][: len(extra)]
+                if len(names) == len(extra):
+                    kws = tuple(sorted(list(kws) + list(zip(names, extra))))
+                    args = args[: sig[0]]
             return ("call", lib, args, kws)
         if cal.kind in ("repo", "class") and cal.func is not None:
             b = self.model.bind(node, cal.func)
